@@ -139,3 +139,20 @@ class SharedDefaultFlow(ScanCheck):
                                     {'line': node.lineno, 'how': ast.unparse(parent)[:80] if parent else ''}))
         out.append(('classes_scanned', n_classes > 30, {'classes': n_classes}))
         return out
+
+
+# --------------------------------------------------------------------------------------------------------------------
+# "containers obtained independently never share mutable state": update_from_other_container hands every member over
+# as a copy - whatever its value (an empty list is as mutable as a full one). Proved under C01, re-checked here.
+from contracts import C01 as _c01   # noqa: E402
+
+
+def _rereg_c12(base, new_id, doc):
+    cls = type('C12_' + base.__name__, (base,), {'id': new_id, 'prop': 'C12', 'doc': doc})
+    register(cls)
+
+
+_rereg_c12(_c01.UpdateFromOther, 'C12.update_from_other_hands_over_copies',
+           'ContainerBase._update_from_other (C01.update_from_other re-checked): every member that is not skipped is '
+           'written to self as copy.copy of the value read from the other container - for EVERY value (a short cut for '
+           'falsy values would hand an empty list over by reference), and nothing of the other container is written')
